@@ -5,6 +5,6 @@ Extraction "c18model.ml" extract_anchor
   stem_deployed idx_empty idx_step_g idx_step_fixed_g idx_run_g idx_run_fixed_g idx_step idx_step_fixed idx_run idx_run_fixed
   get_name_map get_pre_map aget
   files_after ever_inserted files_step spec_name spec_pre fmem abs_ops stale_remove no_removes
-  calc_score bm_candidates argmax_set first_max best_set check_refer open_list open_outcomes system_modules
+  calc_score calc_score_g score_deployed cursor_pick cursor_list hit_pos lit_begin lit_end occ_lit bm_candidates argmax_set first_max best_set check_refer open_list open_outcomes system_modules
   spec_refer conforms all_lua non_lua lua_overlap mod_path simple_lua odd_name literal_no_dot doc_candidates lit_candidates doc_found matches_doc
   pinit pstep ps_refs ps_ambig ps_idx ps_loaded ps_disk rs_err rs_valid rs_vstr any_touch.
